@@ -19,6 +19,7 @@ from ..core import pool_map
 MODULE = "sim/Results.tla"
 DEVS = ["EmptyMergeAliases", "MiscMergeAdds", "SqSumNotMerged"]
 NAME = "res"
+OTHER = "zz_other"     # a second result name in every set (SUM of 10^(alphabet index)): merges must treat every name alike
 NCHOICE = 3
 
 
@@ -145,11 +146,15 @@ def _run_path(job):
         try:
             s = op["s"] - 1
             if op["op"] == "AddEmpty":
+                sets[s] = SimulationResults()
                 sets[s].add_result(Result(NAME, tc, accumulate_values=acc, choice_num=NCHOICE if typ == "CHOICE" else None))
+                sets[s].add_result(Result(OTHER, Result.SUMTYPE))
             elif op["op"] in ("AddNew", "UpdateLast"):
                 ob = alpha[op["k"] - 1]
                 v, t = num(ob["v"]), num(ob["t"])
                 if op["op"] == "AddNew":
+                    sets[s] = SimulationResults()
+                    sets[s].add_new_result(OTHER, Result.SUMTYPE, 10 ** (op["k"] - 1))
                     if typ == "CHOICE":
                         r = Result.create(NAME, tc, int(v), NCHOICE, accumulate_values=acc)
                         sets[s].add_result(r)
@@ -158,6 +163,7 @@ def _run_path(job):
                     else:
                         sets[s].add_new_result(NAME, tc, v, t)
                 else:
+                    sets[s][OTHER][-1].update(10 ** (op["k"] - 1))
                     r = sets[s][NAME][-1]
                     if typ == "CHOICE":
                         r.update(int(v))
@@ -169,6 +175,7 @@ def _run_path(job):
                 t_ = op["t"] - 1
                 if op["op"] == "MergeRes":
                     sets[s][NAME][-1].merge(sets[t_][NAME][-1])
+                    sets[s][OTHER][-1].merge(sets[t_][OTHER][-1])
                 elif op["op"] == "MergeAll":
                     sets[s].merge_all_results(sets[t_])
                 elif op["op"] == "AppendAll":
@@ -181,8 +188,14 @@ def _run_path(job):
             have = sets[si][NAME] if NAME in sets[si].get_result_names() else []
             if len(have) != len(exps):
                 return okc, {"step": i, "op": op, "what": f"set {si + 1} holds {len(have)} results, expected {len(exps)}", "fid": None}
+            oth = sets[si][OTHER] if OTHER in sets[si].get_result_names() else []
+            ghost = e["post"]["sobs"][si]
             for p, ex_ in enumerate(exps):
                 bad = compare_result(have[p], ex_, typ, acc)
+                want_o = sum(10 ** alpha.index(ob) for ob in ghost[p])
+                if len(oth) != len(exps) or oth[p].num_updates != len(ghost[p]) or (len(ghost[p]) and oth[p].get_result() != want_o):
+                    bad.append(f"second result name holds {oth[p].get_result() if len(oth) == len(exps) else 'a list of other length'}, expected {want_o} "
+                               f"({len(ghost[p])} updates)")
                 if bad:
                     other = (op["op"] in ("MergeRes", "MergeAll", "UpdateLast") and si != op["s"] - 1)
                     what = ("operand/bystander mutated: " if other else "") + f"set {si + 1} result {p}: " + "; ".join(bad)
